@@ -57,7 +57,8 @@ class ItemsMonitor(Monitor):
         if t["stopped"]:
             run.viol("C12", "item_offered_after_stop", "task %s item %d offered after %s" % (key[0], i, t["stopped"]),
                      subject=key[0])
-        if run.ctl["pause_req"] or run.ctl["cancel_req"]:
+        if (run.ctl["pause_req"] or run.ctl["cancel_req"]) and ev["pre"]["status"] != "failed":
+            # (once the workflow has failed, a pending pause is moot and clean-up tasks may run)
             run.viol("C12", "item_offered_after_stop", "task %s item %d offered after a pause/cancel request"
                      % (key[0], i), subject=key[0])
         t["offered"].append(i)
